@@ -364,8 +364,13 @@ func (lr *labelRes) sliceLabels(v ssa.Value, depth int) ([][]string, bool) {
 
 func (p *Prog) allFuncsWithInit() []*ssa.Function {
 	out := append([]*ssa.Function{}, p.AllFuncs...)
+	seen := map[*ssa.Function]bool{}
+	for _, f := range out {
+		seen[f] = true
+	}
 	for _, sp := range p.SSAPkgs {
-		if f := sp.Func("init"); f != nil {
+		if f := sp.Func("init"); f != nil && !seen[f] {
+			seen[f] = true
 			out = append(out, f)
 		}
 	}
